@@ -455,6 +455,21 @@ def _scenarios(self, d):
     def pt(c, dt="f"):
         return self.add("point", [list(c) + [1]], {"how": "hom", "dt": dt}, tag="scenpt")
 
+    if d == 3 and rng.random() < 0.3:
+        # two 3D segment collections whose pairs are MIXED: pair 0 crosses (coplanar lines), pair 1 is skew
+        # (intersect raises NotCoplanar today; the point is that it must not touch its operands on the way)
+        a1 = self.add("pointcoll", [[[0, 0, 0, 1], [0, 0, 0, 1]]], {"dt": "i"}, tag="pointcoll3")
+        a2 = self.add("pointcoll", [[[2, 2, 0, 1], [2, 0, 0, 1]]], {"dt": "i"}, tag="pointcoll3")
+        b1 = self.add("pointcoll", [[[0, 2, 0, 1], [0, 1, 1, 1]]], {"dt": "i"}, tag="pointcoll3")
+        b2 = self.add("pointcoll", [[[2, 0, 0, 1], [0, -1, 3, 1]]], {"dt": "i"}, tag="pointcoll3")
+        sa = self.add("segmentcoll", [a1, a2], tag="segmentcoll")
+        sb = self.add("segmentcoll", [b1, b2], tag="segmentcoll")
+        one = self.add("segment", [self.add("point", [[0, 1, 1, 1]], {"how": "hom", "dt": "i"}, tag="aux"),
+                                   self.add("point", [[0, -1, 3, 1]], {"how": "hom", "dt": "i"}, tag="aux")], tag="segment")
+        self.script.append({"op": "seg_intersect", "args": [sa, sb]})
+        self.script.append({"op": "seg_intersect", "args": [sa, one]})
+        self.script.append({"op": "seg_contains", "args": [sb, b1]})
+        return
     if d == 3 and rng.random() < 0.4:
         # 3D polygons met by lines/segments of which SOME lie in / parallel to the supporting planes: the
         # except-LinearDependenceError recovery paths of PolygonTensor.intersect
